@@ -1,11 +1,12 @@
 #!/bin/sh
-# builds build/ocaml/twmodel from the extracted model + the hand-written driver
+# builds <verif>/build/ocaml/twmodel from the extracted model + the hand-written driver
 set -e
-rm -f /verif/build/ocaml/twmodel
-B=/verif/build/ocaml
+V=$(cd "$(dirname "$0")/.." && pwd)
+B=$V/build/ocaml
+rm -f $B/twmodel
 mkdir -p $B
 cd $B
-coqc -Q /verif/coq/Gen TW -Q /verif/coq/Base TW -Q /verif/coq/Model TW -Q /verif/coq/Spec TW -Q /verif/coq/Extract TW /verif/coq/Extract/Extract.v >/dev/null
-cp /verif/ocaml/*.ml $B/
+coqc -Q $V/coq/Gen TW -Q $V/coq/Base TW -Q $V/coq/Model TW -Q $V/coq/Spec TW -Q $V/coq/Extract TW $V/coq/Extract/Extract.v >/dev/null
+cp $V/ocaml/*.ml $B/
 ocamlfind ocamlopt -O3 -w -a -package str twmodel_ext.mli twmodel_ext.ml util.ml model.ml spec.ml oracles.ml driver.ml -o twmodel 2>&1 || \
 ocamlfind ocamlopt -w -a twmodel_ext.mli twmodel_ext.ml util.ml model.ml spec.ml oracles.ml driver.ml -o twmodel
